@@ -1,5 +1,6 @@
 """C06 - one pickle per scenario / example row, in document order."""
 from . import compiler_rules as cr
+from . import misc_rules as ms
 from . import shape_rules as sh
 
 META = {
@@ -18,3 +19,5 @@ def run(rep):
     cr.rule_skel(rep)
     cr.rule_fields(rep)
     cr.rule_input(rep, "C06.isolation")
+    # no hidden state: what the property promises for one use must hold for every later use as well
+    ms.rule_stateless(rep, "C06")
